@@ -532,7 +532,6 @@ func c04GroupsDocumented(c *Ctx) {
 	}
 }
 
-
 // compatTableNames finds the wire and wire+JSON compatibility-group tables of the breaking handlers by what they
 // are (package-level map[protoreflect.Kind]… literals) and by who uses them (the handlers registered for
 // FIELD_WIRE_COMPATIBLE_TYPE and FIELD_WIRE_JSON_COMPATIBLE_TYPE), not by their names.
